@@ -16,6 +16,8 @@ from .units import r_replay
 
 
 def c06_witness(pid, fails, repo):
+    if getattr(fails[0], 'witness', None):
+        return {'found': bool(fails[0].witness.get('kani_concrete_playback')), 'input': fails[0].witness}
     res = r_replay.search(repo)
     out = {'grid_cases_run_on_real_code': res['cases'], 'found': False}
     if res.get('error'):
@@ -386,6 +388,40 @@ PROPS['C09'] = {
                   'axiom (first occurrence), HashMap<String,_> lookup by &str, Inflector stand-in (pascal is an uninterpreted function).',
     'assumptions': ['split_once(char) splits at the first occurrence', 'String keys are determined by their text'],
 }
+
+
+def kani_extra_for(harnesses, label):
+    def extra(pid, tier, seed, runs):
+        if tier != 'thorough':
+            return {'obligations': [], 'failures': [], 'coverage': {'second_back_end': 'Kani harnesses run in the thorough tier only'}}
+        from . import kani_run
+        from .core import Failure
+        res = kani_run.run(harnesses)
+        out = {'obligations': [], 'failures': [], 'trusted_base': ['Kani 0.68 / CBMC 6.11 (second back end)'], 'back_end': ' + Kani 0.68 (CBMC, CaDiCaL)',
+               'coverage': {'kani': {h: {k: v for k, v in r.items() if k in ('status', 'time_s', 'covers')} for h, r in res.items()},
+                            'kani_note': 'loop-free harnesses over kani::any() of the full domain (value and four Option<i32> facets), --default-unwind 3 with unwinding assertions on: a complete proof per carrier'}}
+        bad = []
+        for h, r in res.items():
+            ob = f'kani:{h}#{label}'
+            out['obligations'].append(ob)
+            if r['status'] == 'SUCCESSFUL' and (not r.get('covers') or r['covers'][0] == r['covers'][1]):
+                continue
+            if r['status'] in ('FAILED', 'FAILURE'):
+                f = Failure('kani', ob, 'Kani: ' + '; '.join(r.get('failed_checks', []))[:300], [], r.get('playback', ''), props=[pid])
+                f.witness = {'kani_concrete_playback': r.get('playback', '')}
+                out['failures'].append(f)
+            else:
+                bad.append(f'{h}: {r["status"]} {r.get("detail", "")[-200:]}')
+        if bad:
+            class _I:
+                unit = 'kani'; status = 'inconclusive'; reason = ' | '.join(bad)
+            out['inconclusive'] = _I()
+        return out
+    return extra
+
+
+PROPS['C06']['extra'] = kani_extra_for(['c06_' + t for t in ('i8', 'u8', 'i16', 'u16', 'i32', 'u32', 'i64', 'u64')], 'ok-iff-facets-hold')
+PROPS['C19']['extra'] = kani_extra_for(['c19_clone_shares'], 'clone-shares-the-allocation')
 
 PLANNED = 'claimed in DESIGN.md but the check is not built yet at this commit (listed here so that no unbuilt check is advertised)'
 NOT_APPLICABLE = {
